@@ -1,10 +1,11 @@
-from common import WORLD_TB, WORLD_ASSUME, SCEN_RULE
+from common import WORLD_TB, WORLD_ASSUME, SCEN_RULE, gen_guards
 
 PROP = {
     "suites": ["scn-fault", "scn-faultx", "scn-mixed", "c10-stage"],
-    "lean_modules": ["Lc.Props.C10", "Lc.Props.C10Stage"],
+    "lean_modules": ["Lc.Props.C10", "Lc.Props.C10Stage", "Lc.Props.C10Facts"],
+    "generate": [gen_guards],
     "leanchecker": True,
-    "trusted_base": WORLD_TB + [
+    "trusted_base": WORLD_TB + ["tools/extract (go/ast): regenerates Lc/Generated/Guards.lean (mutator call sites and their WriteOK guards, command functions and getArgs, dropped errors) from the source on every run; default deny for what it does not understand"] + [
         "fault injection through the verif hook fs.verifPoint (one fault point per fs.Mkdir/WriteTextFile/Symlink/Rename/Remove/Mount/Unmount and per open/write of TextOutputFileCursor)",
     ],
     "assumptions": WORLD_ASSUME + [
